@@ -137,7 +137,9 @@ pub fn create_insertion_context_from_solution(
 
     solution.0.routes.iter().for_each(|route| {
         if route.tour.has_jobs() {
-            routes.push(RouteContext::new_with_state(route.deep_copy(), RouteState::default()));
+            let mut route_ctx = RouteContext::new_with_state(route.deep_copy(), RouteState::default());
+            problem.goal.accept_route_state(&mut route_ctx);
+            routes.push(route_ctx);
             registry.use_actor(&route.actor);
         } else {
             registry.free_actor(&route.actor);
